@@ -641,6 +641,11 @@ func writeTypeConversion(w *formatting.IndentedWriter, typeChange dsl.TypeChange
 		w.Indented(func() {
 			writeTypeConversion(w, tc.InnerChange, sourceName+".value()", targetName, write)
 		})
+		fmt.Fprintf(w, "} else {\n")
+		w.Indented(func() {
+			// the target may be a variable that the caller reuses from one stream item to the next
+			fmt.Fprintf(w, "%s.reset();\n", targetName)
+		})
 		fmt.Fprintf(w, "}\n")
 
 	case *dsl.TypeChangeOptionalToScalar:
